@@ -101,6 +101,8 @@ def main():
             return {'type': 'date', 'value': v.isoformat()}
         if isinstance(v, bytes):
             return {'type': 'bytes', 'value': v.hex()}
+        if t == 'Decimal':
+            return {'type': 'Decimal', 'value': str(v)}
         if isinstance(v, (list, tuple)) and depth < 16:
             return {'type': t, 'value': [enc(x, depth + 1) for x in v]}
         if isinstance(v, dict) and depth < 16:
